@@ -1,1 +1,707 @@
-fn main() { eprintln!("not built yet"); std::process::exit(2); }
+//! C08 harness: recorder and label-program replayer for the real `dora_asm::arm64::AssemblerArm64`.
+//!
+//!   va64 methods
+//!       names + operand signatures of the instruction methods the recorder drives (one per line: "name sig")
+//!   va64 record <out.ndjson> <seed> <quick|thorough|N>
+//!       calls every instruction method over all register numbers per operand (0..30, zr, sp as the API
+//!       exposes them; 0..31 for vector registers), every Extend/Shift/Cond value, boundary and seeded
+//!       random immediates (encodable and not). One NDJSON record per call:
+//!         {"m":method,"r":[registers in parameter order],"i":[immediates in parameter order],"x":"name",
+//!          "ok":true,"w":[[hi16,lo16],..]}      or      ..."ok":false,"w":[]   when the assembler panics
+//!       registers: 0..30, 31 = REG_ZERO, 32 = REG_SP; vector registers 0..31.
+//!       immediates: i32 -> JSON integer; u32 -> [hi16,lo16]; u64/i64 -> [h3,h2,h1,h0] (16-bit limbs,
+//!       most significant first, two's complement). "x": Extend / Shift / Cond variant name or "".
+//!   va64 labels <programs.ndjson> <out.ndjson>
+//!       replays label programs {"id":n,"nl":k,"prog":[["Pad",n],["Bind",l],["B",l],["BCond",cc,l],
+//!       ["Cbz",variant,r,l],["Tbz",variant,r,bit,l],["Adr",r,l]]} and writes
+//!       {"id":n,"ok":true,"sites":[[byte_pos,[[hi,lo],..]],..],"len":bytes} (one site per non-Pad, non-Bind item)
+//!       or {"id":n,"ok":false}
+//!
+//! A panic (assert) of the code under test is data ("refused"), never a harness failure.
+use dora_asm::Label;
+use dora_asm::arm64::*;
+use std::io::{BufRead, BufWriter, Write};
+use std::panic::{AssertUnwindSafe, catch_unwind};
+
+type Asm = AssemblerArm64;
+
+#[derive(Clone, Copy, Debug, PartialEq)]
+enum Imm {
+    I32(i32),
+    U32(u32),
+    U64(u64),
+    I64(i64),
+}
+
+#[derive(Clone, Debug)]
+struct Ops {
+    r: Vec<u8>,
+    i: Vec<Imm>,
+    x: u8,
+}
+
+impl Ops {
+    fn g(&self, k: usize) -> Register {
+        match self.r[k] {
+            31 => REG_ZERO,
+            32 => REG_SP,
+            v => Register::new(v),
+        }
+    }
+    fn v(&self, k: usize) -> NeonRegister {
+        NeonRegister::new(self.r[k])
+    }
+    fn u(&self, k: usize) -> u32 {
+        match self.i[k] {
+            Imm::U32(v) => v,
+            _ => unreachable!(),
+        }
+    }
+    fn s(&self, k: usize) -> i32 {
+        match self.i[k] {
+            Imm::I32(v) => v,
+            _ => unreachable!(),
+        }
+    }
+    fn uu(&self, k: usize) -> u64 {
+        match self.i[k] {
+            Imm::U64(v) => v,
+            _ => unreachable!(),
+        }
+    }
+    fn ss(&self, k: usize) -> i64 {
+        match self.i[k] {
+            Imm::I64(v) => v,
+            _ => unreachable!(),
+        }
+    }
+    fn mem(&self, rk: usize, ik: usize) -> MemOperand {
+        MemOperand::new(self.g(rk), self.ss(ik))
+    }
+    fn ext(&self) -> Extend {
+        EXTENDS[self.x as usize].1
+    }
+    fn sh(&self) -> Shift {
+        SHIFTS[self.x as usize].1
+    }
+    fn cc(&self) -> Cond {
+        CONDS[self.x as usize].1
+    }
+}
+
+const EXTENDS: [(&str, Extend); 9] = [
+    ("UXTB", Extend::UXTB),
+    ("UXTH", Extend::UXTH),
+    ("LSL", Extend::LSL),
+    ("UXTW", Extend::UXTW),
+    ("UXTX", Extend::UXTX),
+    ("SXTB", Extend::SXTB),
+    ("SXTH", Extend::SXTH),
+    ("SXTW", Extend::SXTW),
+    ("SXTX", Extend::SXTX),
+];
+const SHIFTS: [(&str, Shift); 4] = [("LSL", Shift::LSL), ("LSR", Shift::LSR), ("ASR", Shift::ASR), ("ROR", Shift::ROR)];
+const CONDS: [(&str, Cond); 16] = [
+    ("EQ", Cond::EQ),
+    ("NE", Cond::NE),
+    ("CS", Cond::CS),
+    ("HS", Cond::HS),
+    ("CC", Cond::CC),
+    ("LO", Cond::LO),
+    ("MI", Cond::MI),
+    ("PL", Cond::PL),
+    ("VS", Cond::VS),
+    ("VC", Cond::VC),
+    ("HI", Cond::HI),
+    ("LS", Cond::LS),
+    ("GE", Cond::GE),
+    ("LT", Cond::LT),
+    ("GT", Cond::GT),
+    ("LE", Cond::LE),
+];
+
+struct Method {
+    name: &'static str,
+    /// one char per parameter: G gpr, V vector register, X Extend, S Shift, C Cond, u u32, i i32, U u64, I i64,
+    /// M MemOperand (base register + i64 offset)
+    sig: &'static str,
+    call: Box<dyn Fn(&mut Asm, &Ops)>,
+}
+
+macro_rules! def {
+    ($t:ident, $sig:expr, [$($n:ident),* $(,)?], |$a:ident, $o:ident| $args:tt) => {
+        $( $t.push(Method { name: stringify!($n), sig: $sig,
+                            call: Box::new(|$a: &mut Asm, $o: &Ops| { def!(@call $a, $n, $args); }) }); )*
+    };
+    (@call $a:ident, $n:ident, ($($arg:expr),*)) => { $a.$n($($arg),*) };
+}
+
+fn methods() -> Vec<Method> {
+    let mut t: Vec<Method> = Vec::new();
+    def!(t, "GGG", [add, add_w, adds, adds_w, sub, sub_w, subs, subs_w, asrv, asrv_w, lsl, lsl_w, lsr, lsr_w, ror, ror_w,
+                    sdiv, sdiv_w, udiv, udiv_w, mul, mul_w, smull, smulh,
+                    cas, cas_w, casa, casa_w, casal, casal_w, casl, casl_w,
+                    ldadd, ldadd_w, ldadda, ldadda_w, ldaddal, ldaddal_w, ldaddl, ldaddl_w,
+                    swp, swp_w, swpa, swpa_w, swpal, swpal_w, swpl, swpl_w,
+                    stxr, stxr_w, stlxr, stlxr_w],
+         |a, o| (o.g(0), o.g(1), o.g(2)));
+    def!(t, "GGGXu", [add_ext, add_ext_w, sub_ext, sub_ext_w, subs_ext, subs_ext_w,
+                      ldrb_reg, ldr_reg, ldrh_reg, ldr_reg_w, str_reg, strb_reg, strh_reg, str_reg_w],
+         |a, o| (o.g(0), o.g(1), o.g(2), o.ext(), o.u(0)));
+    def!(t, "GGGSu", [add_sh, add_sh_w, adds_sh, adds_sh_w, sub_sh, sub_sh_w, subs_sh, subs_sh_w,
+                      and_sh, and_sh_w, ands_sh, ands_sh_w, bic_sh, bic_sh_w, bics_sh, bics_sh_w,
+                      eon_sh, eon_sh_w, eor_sh, eor_sh_w, orn_sh, orn_sh_w, orr_sh, orr_sh_w],
+         |a, o| (o.g(0), o.g(1), o.g(2), o.sh(), o.u(0)));
+    def!(t, "GGu", [add_imm, add_imm_w, adds_imm, adds_imm_w, sub_imm, sub_imm_w, subs_imm, subs_imm_w,
+                    lsl_imm, lsl_imm_w, lsr_imm, lsr_imm_w,
+                    ldr_imm_x, ldrb_imm, ldrh_imm, ldr_imm_w, str_imm, str_imm_x, strb_imm, strh_imm, str_imm_w],
+         |a, o| (o.g(0), o.g(1), o.u(0)));
+    def!(t, "GGU", [and_imm, and_imm_w], |a, o| (o.g(0), o.g(1), o.uu(0)));
+    def!(t, "Gi", [adr_imm, adrp_imm, cbnz_imm, cbnz_imm_w, cbz_imm, cbz_imm_w, mov_imm_w], |a, o| (o.g(0), o.s(0)));
+    def!(t, "GI", [mov_imm], |a, o| (o.g(0), o.ss(0)));
+    def!(t, "i", [bl_imm], |a, o| (o.s(0)));
+    def!(t, "G", [b_r, bl_r, ret], |a, o| (o.g(0)));
+    def!(t, "GGuu", [bfm, bfm_w, sbfm, sbfm_w, ubfm, ubfm_w], |a, o| (o.g(0), o.g(1), o.u(0), o.u(1)));
+    def!(t, "u", [brk, dmb], |a, o| (o.u(0)));
+    def!(t, "", [dmb_ish, dmb_ishst, nop], |a, _o| ());
+    def!(t, "GG", [cls, cls_w, clz, clz_w, rbit, rbit_w, rev, rev_w, cmp, cmp_w,
+                   ldar, ldarb, ldarh, ldar_w, ldaxr, ldaxr_w, ldxr, ldxr_w, stlr, stlrb, stlrh, stlr_w,
+                   mov, mov_w, sxtw, uxtb, uxtw],
+         |a, o| (o.g(0), o.g(1)));
+    def!(t, "GGXu", [cmp_ext, cmp_ext_w], |a, o| (o.g(0), o.g(1), o.ext(), o.u(0)));
+    def!(t, "Gu", [cmn_imm, cmn_imm_w, cmp_imm, cmp_imm_w], |a, o| (o.g(0), o.u(0)));
+    def!(t, "GGSu", [cmp_sh, cmp_sh_w], |a, o| (o.g(0), o.g(1), o.sh(), o.u(0)));
+    def!(t, "uuVV", [addv, cnt], |a, o| (o.u(0), o.u(1), o.v(0), o.v(1)));
+    def!(t, "GGGC", [csel, csel_w, csinc, csinc_w, csinv, csinv_w], |a, o| (o.g(0), o.g(1), o.g(2), o.cc()));
+    def!(t, "GC", [cset, cset_w], |a, o| (o.g(0), o.cc()));
+    def!(t, "VVV", [fadd_s, fadd_d, fsub_s, fsub_d, fmul_s, fmul_d, fdiv_s, fdiv_d], |a, o| (o.v(0), o.v(1), o.v(2)));
+    def!(t, "VV", [fcmp_d, fcmp_s, fcmpe_d, fcmpe_s, fcvt_ds, fcvt_sd, fmov_d, fmov_s, fabs_d, fabs_s, fneg_d, fneg_s,
+                   frintn_d, frintn_s, frintp_d, frintp_s, frintm_d, frintm_s, frintz_d, frintz_s, frinta_d, frinta_s,
+                   fsqrt_d, fsqrt_s],
+         |a, o| (o.v(0), o.v(1)));
+    def!(t, "GV", [fcvtzs_d, fcvtzs_s, fcvtzs_wd, fcvtzs_ws, fmov_sf_d, fmov_sf_s], |a, o| (o.g(0), o.v(1)));
+    def!(t, "VG", [fmov_fs_d, fmov_fs_s, scvtf_si_dw, scvtf_si_dx, scvtf_si_sw, scvtf_si_sx], |a, o| (o.v(0), o.g(1)));
+    def!(t, "GGGi", [ldp, ldp_w, ldp_post, ldp_post_w, stp, stp_w, stp_post, stp_post_w, stp_pre, stp_pre_w],
+         |a, o| (o.g(0), o.g(1), o.g(2), o.s(0)));
+    def!(t, "GM", [ldr], |a, o| (o.g(0), o.mem(1, 0)));
+    def!(t, "VGu", [ldr_imm_d, ldr_imm_s, str_imm_d, str_imm_s], |a, o| (o.v(0), o.g(1), o.u(0)));
+    def!(t, "VGGXu", [ldr_reg_d, ldr_reg_s, str_reg_d, str_reg_s], |a, o| (o.v(0), o.g(1), o.g(2), o.ext(), o.u(0)));
+    def!(t, "VMG", [ldr_mem_s, ldr_mem_d, str_mem_s, str_mem_d], |a, o| (o.v(0), o.mem(1, 0), o.g(2)));
+    def!(t, "GMG", [ldr_mem_b, ldr_mem_w, ldr_mem_x, str_mem_b, str_mem_w, str_mem_x], |a, o| (o.g(0), o.mem(1, 0), o.g(2)));
+    def!(t, "GGi", [ldur, ldurb, ldurh, ldur_w, stur, sturb, sturh, stur_w], |a, o| (o.g(0), o.g(1), o.s(0)));
+    def!(t, "VGi", [ldur_d, ldur_s, stur_d, stur_s], |a, o| (o.v(0), o.g(1), o.s(0)));
+    def!(t, "GGGG", [madd, madd_w, msub, msub_w, smaddl], |a, o| (o.g(0), o.g(1), o.g(2), o.g(3)));
+    def!(t, "Guu", [movn, movn_w, movz, movz_w, movk, movk_w], |a, o| (o.g(0), o.u(0), o.u(1)));
+    t
+}
+
+/// methods that take a Label; they are exercised by the `labels` sub-command
+const LABEL_METHODS: [&str; 10] = ["b", "bc", "cbz", "cbz_w", "cbnz", "cbnz_w", "tbz", "tbnz", "adr_label", "bind_label"];
+
+// ------------------------------------------------------------------------------------------------
+// deterministic PRNG (splitmix64)
+struct Rng(u64);
+impl Rng {
+    fn next(&mut self) -> u64 {
+        self.0 = self.0.wrapping_add(0x9E3779B97F4A7C15);
+        let mut z = self.0;
+        z = (z ^ (z >> 30)).wrapping_mul(0xBF58476D1CE4E5B9);
+        z = (z ^ (z >> 27)).wrapping_mul(0x94D049BB133111EB);
+        z ^ (z >> 31)
+    }
+    fn below(&mut self, n: u64) -> u64 {
+        self.next() % n
+    }
+    fn chance(&mut self, num: u64, den: u64) -> bool {
+        self.below(den) < num
+    }
+    fn pick<T: Copy>(&mut self, v: &[T]) -> T {
+        v[self.below(v.len() as u64) as usize]
+    }
+}
+
+fn u64_boundaries() -> Vec<u64> {
+    let mut v: Vec<u64> = Vec::new();
+    for k in 0..64 {
+        let p = 1u64 << k;
+        v.extend_from_slice(&[p.wrapping_sub(1), p, p.wrapping_add(1)]);
+    }
+    v.extend_from_slice(&[u64::MAX, u64::MAX - 1, 3, 5, 6, 12, 24, 40, 48, 56, 504, 520, 252, 260, 1020, 1016, 8190, 8192 + 2,
+                          16380, 16384 + 4, 32760, 32768 + 8, 0xfff000, 0xffe000, 0xfff001, 0x1001, 0x1fff, 0x2000, 0xffff_0000,
+                          0x1234, 0xabcd_0000, 0x0001_0001, 0xffff_ffff_0000, 0xffff_0000_ffff_ffff, 0x0000_ffff_ffff_ffff,
+                          0x5555_5555_5555_5555, 0xaaaa_aaaa_aaaa_aaaa, 0x00ff_00ff_00ff_00ff, 0x8000_0000_8000_0000,
+                          0x7fff_ffff_7fff_ffff, 0xffff_fffe, 0x1_0000_0001]);
+    v.sort();
+    v.dedup();
+    v
+}
+
+fn gen_u64(rng: &mut Rng, bounds: &[u64]) -> u64 {
+    let mut v = if rng.chance(1, 2) {
+        rng.pick(bounds)
+    } else {
+        let bits = rng.below(65);
+        if bits == 0 { 0 } else { rng.next() >> (64 - bits) }
+    };
+    if rng.chance(1, 4) {
+        v &= !7;
+    }
+    if rng.chance(1, 12) {
+        v &= !0xfff;
+    }
+    v
+}
+
+fn gen_u32(rng: &mut Rng, bounds: &[u64]) -> u32 {
+    let b32: u64 = if rng.chance(3, 4) {
+        // most fields are narrow: prefer small magnitudes
+        let mut v = if rng.chance(1, 2) {
+            let cands: Vec<u64> = bounds.iter().copied().filter(|x| *x <= u32::MAX as u64).collect();
+            rng.pick(&cands)
+        } else {
+            let bits = rng.below(33);
+            if bits == 0 { 0 } else { (rng.next() >> (64 - bits)) & 0xffff_ffff }
+        };
+        if rng.chance(1, 4) {
+            v &= !7;
+        }
+        if rng.chance(1, 12) {
+            v &= !0xfff;
+        }
+        v
+    } else {
+        rng.pick(&[0u64, 1, 2, 3, 4, 5, 7, 8, 12, 15, 16, 24, 31, 32, 33, 48, 63, 64, 65, 4095, 4096, 65535, 65536])
+    };
+    b32 as u32
+}
+
+fn gen_i32(rng: &mut Rng, bounds: &[u64]) -> i32 {
+    let m = gen_u32(rng, bounds);
+    let v = if m > i32::MAX as u32 { if rng.chance(1, 2) { i32::MAX } else { i32::MIN } } else { m as i32 };
+    if rng.chance(1, 2) { v.wrapping_neg() } else { v }
+}
+
+fn gen_i64(rng: &mut Rng, bounds: &[u64], small: bool) -> i64 {
+    if small && rng.chance(2, 3) {
+        return gen_i32(rng, bounds) as i64;
+    }
+    match rng.below(4) {
+        0 => {
+            // half-word patterns (move-wide sequences)
+            let mut v: u64 = 0;
+            for k in 0..4 {
+                let h: u64 = match rng.below(4) {
+                    0 => 0,
+                    1 => 0xffff,
+                    2 => rng.below(0x10000),
+                    _ => rng.pick(&[1u64, 0x8000, 0x7fff, 0xfffe, 0x00ff]),
+                };
+                v |= h << (16 * k);
+            }
+            v as i64
+        }
+        1 => (gen_u64(rng, bounds) as i64).wrapping_neg(),
+        _ => gen_u64(rng, bounds) as i64,
+    }
+}
+
+/// a valid logical immediate (element size e, run of ones, rotation) or a near miss of one
+fn gen_logimm(rng: &mut Rng, bounds: &[u64]) -> u64 {
+    if rng.chance(1, 4) {
+        return gen_u64(rng, bounds);
+    }
+    let e = rng.pick(&[2u32, 4, 8, 16, 32, 64]);
+    let ones = 1 + rng.below((e - 1) as u64) as u32;
+    let r = rng.below(e as u64) as u32;
+    let mask = if e == 64 { u64::MAX } else { (1u64 << e) - 1 };
+    let run = if ones == 64 { u64::MAX } else { (1u64 << ones) - 1 };
+    let elem = if r == 0 { run } else { ((run >> r) | (run << (e - r))) & mask };
+    let mut v = 0u64;
+    let mut k = 0;
+    while k < 64 {
+        v |= elem << k;
+        k += e;
+    }
+    match rng.below(6) {
+        0 => v ^ (1u64 << rng.below(64)),          // near miss
+        1 => v & 0xffff_ffff,                      // 32-bit form candidates
+        2 => v & 0xffff_ffff,
+        _ => v,
+    }
+}
+
+fn domain(c: char) -> Vec<u8> {
+    match c {
+        'G' => (0..=32).collect(),
+        'V' => (0..=31).collect(),
+        _ => unreachable!(),
+    }
+}
+
+fn x_count(sig: &str) -> usize {
+    if sig.contains('X') { 9 } else if sig.contains('S') { 4 } else if sig.contains('C') { 16 } else { 0 }
+}
+
+fn x_name(sig: &str, x: u8) -> &'static str {
+    if sig.contains('X') { EXTENDS[x as usize].0 } else if sig.contains('S') { SHIFTS[x as usize].0 } else if sig.contains('C') { CONDS[x as usize].0 } else { "" }
+}
+
+fn reg_kinds(sig: &str) -> Vec<char> {
+    let mut v = Vec::new();
+    for c in sig.chars() {
+        match c {
+            'G' | 'V' => v.push(c),
+            'M' => v.push('G'),
+            _ => {}
+        }
+    }
+    v
+}
+
+fn imm_kinds(sig: &str) -> Vec<char> {
+    let mut v = Vec::new();
+    for c in sig.chars() {
+        match c {
+            'u' | 'i' | 'U' | 'I' => v.push(c),
+            'M' => v.push('m'),
+            _ => {}
+        }
+    }
+    v
+}
+
+fn gen_imm(kind: char, name: &str, rng: &mut Rng, bounds: &[u64]) -> Imm {
+    match kind {
+        'u' => Imm::U32(gen_u32(rng, bounds)),
+        'i' => Imm::I32(gen_i32(rng, bounds)),
+        'U' => Imm::U64(if name.starts_with("and_imm") { gen_logimm(rng, bounds) } else { gen_u64(rng, bounds) }),
+        'I' => Imm::I64(gen_i64(rng, bounds, false)),
+        'm' => Imm::I64(gen_i64(rng, bounds, true)),
+        _ => unreachable!(),
+    }
+}
+
+fn plain_regs(kinds: &[char], rng: &mut Rng) -> Vec<u8> {
+    // distinct plain registers so that a swapped operand is visible in the word
+    let mut v: Vec<u8> = Vec::new();
+    for _ in kinds {
+        loop {
+            let c = rng.below(31) as u8;
+            if !v.contains(&c) {
+                v.push(c);
+                break;
+            }
+        }
+    }
+    v
+}
+
+fn any_regs(kinds: &[char], rng: &mut Rng) -> Vec<u8> {
+    kinds.iter().map(|k| {
+        let d = domain(*k);
+        if rng.chance(1, 6) { d[d.len() - 1 - rng.below(2) as usize] } else { rng.pick(&d) }
+    }).collect()
+}
+
+fn run_call(m: &Method, ops: &Ops) -> Option<Vec<u32>> {
+    let r = catch_unwind(AssertUnwindSafe(|| {
+        let mut a = Asm::new();
+        (m.call)(&mut a, ops);
+        a.finalize(1).code()
+    }));
+    match r {
+        Ok(code) => {
+            assert!(code.len() % 4 == 0);
+            Some(code.chunks(4).map(|c| u32::from_le_bytes([c[0], c[1], c[2], c[3]])).collect())
+        }
+        Err(_) => None,
+    }
+}
+
+fn imm_json(i: &Imm) -> String {
+    match *i {
+        Imm::I32(v) => format!("{}", v),
+        Imm::U32(v) => format!("[{},{}]", v >> 16, v & 0xffff),
+        Imm::U64(v) => format!("[{},{},{},{}]", v >> 48, (v >> 32) & 0xffff, (v >> 16) & 0xffff, v & 0xffff),
+        Imm::I64(v) => {
+            let v = v as u64;
+            format!("[{},{},{},{}]", v >> 48, (v >> 32) & 0xffff, (v >> 16) & 0xffff, v & 0xffff)
+        }
+    }
+}
+
+fn words_json(w: &[u32]) -> String {
+    let v: Vec<String> = w.iter().map(|x| format!("[{},{}]", x >> 16, x & 0xffff)).collect();
+    format!("[{}]", v.join(","))
+}
+
+struct Scale {
+    tries: usize,
+    good: usize,
+    sweep_combos: usize,
+    pair_samples: usize,
+    x_combos: usize,
+    imm_random: usize,
+    imm_perturb: usize,
+}
+
+fn record(out: &str, seed: u64, tier: &str) {
+    let sc = match tier {
+        "quick" => Scale { tries: 400, good: 6, sweep_combos: 1, pair_samples: 0, x_combos: 2, imm_random: 30, imm_perturb: 40 },
+        "thorough" => Scale { tries: 3000, good: 32, sweep_combos: 5, pair_samples: 250, x_combos: 8, imm_random: 500, imm_perturb: 600 },
+        n => {
+            let k: usize = n.parse().expect("tier: quick | thorough | N");
+            Scale { tries: 400 + 20 * k, good: 4 + k / 4, sweep_combos: 1 + k / 20, pair_samples: 2 * k, x_combos: 2 + k / 12, imm_random: 4 * k, imm_perturb: 5 * k }
+        }
+    };
+    let bounds = u64_boundaries();
+    let mut w = BufWriter::new(std::fs::File::create(out).expect("create output"));
+    let ms = methods();
+    let mut total = 0usize;
+    let mut refused = 0usize;
+    for m in &ms {
+        let mut h: u64 = 1469598103934665603;
+        for b in m.name.bytes() {
+            h = (h ^ b as u64).wrapping_mul(1099511628211);
+        }
+        let mut rng = Rng(seed.wrapping_mul(0x2545F4914F6CDD1D) ^ h);
+        let rk = reg_kinds(m.sig);
+        let ik = imm_kinds(m.sig);
+        let nx = x_count(m.sig);
+        let mut seen = std::collections::HashSet::new();
+        let mut emit = |ops: &Ops, w: &mut BufWriter<std::fs::File>, total: &mut usize, refused: &mut usize| -> bool {
+            let key = format!("{:?}", ops);
+            if !seen.insert(key) {
+                return false;
+            }
+            let res = run_call(m, ops);
+            let is: Vec<String> = ops.i.iter().map(imm_json).collect();
+            let rs: Vec<String> = ops.r.iter().map(|x| x.to_string()).collect();
+            let (ok, ws) = match &res {
+                Some(v) => (true, words_json(v)),
+                None => (false, "[]".to_string()),
+            };
+            writeln!(w, "{{\"m\":\"{}\",\"r\":[{}],\"i\":[{}],\"x\":\"{}\",\"ok\":{},\"w\":{}}}",
+                     m.name, rs.join(","), is.join(","), x_name(m.sig, ops.x), ok, ws).unwrap();
+            *total += 1;
+            if !ok {
+                *refused += 1;
+            }
+            ok
+        };
+        // 1. find immediate/x combinations the assembler accepts with plain registers
+        let mut good: Vec<(Vec<Imm>, u8)> = Vec::new();
+        if ik.is_empty() && nx == 0 {
+            good.push((vec![], 0));
+        } else {
+            let mut tries = 0;
+            while tries < sc.tries && good.len() < sc.good {
+                tries += 1;
+                let imms: Vec<Imm> = ik.iter().map(|k| gen_imm(*k, m.name, &mut rng, &bounds)).collect();
+                let x = if nx > 0 { rng.below(nx as u64) as u8 } else { 0 };
+                let ops = Ops { r: plain_regs(&rk, &mut rng), i: imms.clone(), x };
+                if good.iter().any(|g| g.0 == imms && g.1 == x) {
+                    continue;
+                }
+                if run_call(m, &ops).is_some() {
+                    good.push((imms, x));
+                }
+            }
+            if good.is_empty() {
+                // nothing accepted: still sweep with an arbitrary combination
+                good.push((ik.iter().map(|k| gen_imm(*k, m.name, &mut rng, &bounds)).collect(), 0));
+            }
+        }
+        // baseline record (the only one for methods without operands)
+        emit(&Ops { r: plain_regs(&rk, &mut rng), i: good[0].0.clone(), x: good[0].1 }, &mut w, &mut total, &mut refused);
+        // 2. register sweep: every register number in every position
+        for p in 0..rk.len() {
+            for val in domain(rk[p]) {
+                for c in 0..sc.sweep_combos {
+                    let g = &good[(c + val as usize) % good.len()];
+                    let mut r = plain_regs(&rk, &mut rng);
+                    r[p] = val;
+                    emit(&Ops { r, i: g.0.clone(), x: g.1 }, &mut w, &mut total, &mut refused);
+                }
+            }
+        }
+        // 3. pairs of special / arbitrary registers
+        for _ in 0..sc.pair_samples {
+            let g = rng.pick(&(0..good.len()).collect::<Vec<_>>());
+            emit(&Ops { r: any_regs(&rk, &mut rng), i: good[g].0.clone(), x: good[g].1 }, &mut w, &mut total, &mut refused);
+        }
+        // 4. every Extend / Shift / Cond value
+        for x in 0..nx {
+            for c in 0..sc.x_combos {
+                let g = &good[c % good.len()];
+                emit(&Ops { r: plain_regs(&rk, &mut rng), i: g.0.clone(), x: x as u8 }, &mut w, &mut total, &mut refused);
+            }
+        }
+        // 5. immediates: boundary / random (encodable or not), and single-field perturbations of accepted combinations
+        if !ik.is_empty() {
+            for _ in 0..sc.imm_random {
+                let imms: Vec<Imm> = ik.iter().map(|k| gen_imm(*k, m.name, &mut rng, &bounds)).collect();
+                let x = if nx > 0 { rng.below(nx as u64) as u8 } else { 0 };
+                let r = if rng.chance(1, 5) { any_regs(&rk, &mut rng) } else { plain_regs(&rk, &mut rng) };
+                emit(&Ops { r, i: imms, x }, &mut w, &mut total, &mut refused);
+            }
+            for n in 0..sc.imm_perturb {
+                let g = &good[n % good.len()];
+                let mut imms = g.0.clone();
+                let p = rng.below(ik.len() as u64) as usize;
+                imms[p] = gen_imm(ik[p], m.name, &mut rng, &bounds);
+                let x = if nx > 0 && rng.chance(1, 3) { rng.below(nx as u64) as u8 } else { g.1 };
+                emit(&Ops { r: plain_regs(&rk, &mut rng), i: imms, x }, &mut w, &mut total, &mut refused);
+            }
+            // dense sweep of small values for every immediate position (field boundaries of 1..7-bit fields)
+            for p in 0..ik.len() {
+                let dense: Vec<i64> = if sc.sweep_combos > 1 { (-70..=70).collect() } else { vec![-65, -64, -33, -32, -17, -16, -9, -8, -5, -4, -2, -1, 0, 1, 2, 3, 4, 5, 7, 8, 15, 16, 17, 31, 32, 33, 63, 64, 65] };
+                for d in dense {
+                    let g = &good[(d.unsigned_abs() as usize) % good.len()];
+                    let mut imms = g.0.clone();
+                    imms[p] = match ik[p] {
+                        'u' => { if d < 0 { continue; } Imm::U32(d as u32) }
+                        'i' => Imm::I32(d as i32),
+                        'U' => { if d < 0 { continue; } Imm::U64(d as u64) }
+                        _ => Imm::I64(d),
+                    };
+                    emit(&Ops { r: plain_regs(&rk, &mut rng), i: imms, x: g.1 }, &mut w, &mut total, &mut refused);
+                }
+            }
+        }
+    }
+    w.flush().unwrap();
+    println!("{{\"kind\":\"summary\",\"methods\":{},\"records\":{},\"refused\":{}}}", ms.len(), total, refused);
+}
+
+// ------------------------------------------------------------------------------------------------
+// label programs
+
+fn gpr(v: u64) -> Register {
+    match v {
+        31 => REG_ZERO,
+        32 => REG_SP,
+        v => Register::new(v as u8),
+    }
+}
+
+fn cond_by_name(n: &str) -> Cond {
+    CONDS.iter().find(|c| c.0 == n).expect("cond name").1
+}
+
+fn labels(inp: &str, out: &str) {
+    let f = std::io::BufReader::new(std::fs::File::open(inp).expect("open programs"));
+    let mut w = BufWriter::new(std::fs::File::create(out).expect("create output"));
+    let mut n = 0;
+    let mut refused = 0;
+    for line in f.lines() {
+        let line = line.unwrap();
+        if !line.starts_with('{') {
+            continue;
+        }
+        let v: serde_json::Value = serde_json::from_str(&line).expect("json");
+        let id = v["id"].as_u64().unwrap();
+        let nl = v["nl"].as_u64().unwrap() as usize;
+        let prog = v["prog"].as_array().unwrap().clone();
+        let res = catch_unwind(AssertUnwindSafe(|| {
+            let mut a = Asm::new();
+            let ls: Vec<Label> = (0..nl).map(|_| a.create_label()).collect();
+            let mut bound = vec![false; nl];
+            let mut sites: Vec<(usize, usize)> = Vec::new();
+            for item in &prog {
+                let it = item.as_array().unwrap();
+                let op = it[0].as_str().unwrap();
+                let start = a.position();
+                let lab = |k: usize| ls[it[k].as_u64().unwrap() as usize - 1];
+                match op {
+                    "Pad" => {
+                        let n = it[1].as_u64().unwrap();
+                        for _ in 0..n / 4 {
+                            a.emit_u128(0);
+                        }
+                        for _ in 0..n % 4 {
+                            a.emit_u32(0);
+                        }
+                        continue;
+                    }
+                    "Bind" => {
+                        let k = it[1].as_u64().unwrap() as usize - 1;
+                        a.bind_label(ls[k]);
+                        bound[k] = true;
+                        continue;
+                    }
+                    "B" => a.b(lab(1)),
+                    "BCond" => a.bc(cond_by_name(it[1].as_str().unwrap()), lab(2)),
+                    "Cbz" => {
+                        let r = gpr(it[2].as_u64().unwrap());
+                        match it[1].as_str().unwrap() {
+                            "cbz" => a.cbz(r, lab(3)),
+                            "cbz_w" => a.cbz_w(r, lab(3)),
+                            "cbnz" => a.cbnz(r, lab(3)),
+                            "cbnz_w" => a.cbnz_w(r, lab(3)),
+                            _ => panic!("harness: bad cbz variant"),
+                        }
+                    }
+                    "Tbz" => {
+                        let r = gpr(it[2].as_u64().unwrap());
+                        let bit = it[3].as_u64().unwrap() as u32;
+                        match it[1].as_str().unwrap() {
+                            "tbz" => a.tbz(r, bit, lab(4)),
+                            "tbnz" => a.tbnz(r, bit, lab(4)),
+                            _ => panic!("harness: bad tbz variant"),
+                        }
+                    }
+                    "Adr" => a.adr_label(gpr(it[1].as_u64().unwrap()), lab(2)),
+                    _ => panic!("harness: bad item"),
+                }
+                sites.push((start, a.position()));
+            }
+            // labels still unbound are bound at the end (a branch to the end of the code)
+            for k in 0..nl {
+                if !bound[k] {
+                    a.bind_label(ls[k]);
+                }
+            }
+            let code = a.finalize(1).code();
+            (sites, code)
+        }));
+        n += 1;
+        match res {
+            Ok((sites, code)) => {
+                let mut ss: Vec<String> = Vec::new();
+                for (s, e) in sites {
+                    let ws: Vec<u32> = code[s..e].chunks(4).map(|c| u32::from_le_bytes([c[0], c[1], c[2], c[3]])).collect();
+                    ss.push(format!("[{},{}]", s, words_json(&ws)));
+                }
+                writeln!(w, "{{\"id\":{},\"ok\":true,\"sites\":[{}],\"len\":{}}}", id, ss.join(","), code.len()).unwrap();
+            }
+            Err(_) => {
+                refused += 1;
+                writeln!(w, "{{\"id\":{},\"ok\":false}}", id).unwrap();
+            }
+        }
+    }
+    w.flush().unwrap();
+    println!("{{\"kind\":\"summary\",\"programs\":{},\"refused\":{}}}", n, refused);
+}
+
+fn main() {
+    std::panic::set_hook(Box::new(|_| {}));
+    let args: Vec<String> = std::env::args().collect();
+    match args.get(1).map(|s| s.as_str()) {
+        Some("methods") => {
+            for m in methods() {
+                println!("{} {}", m.name, m.sig);
+            }
+            for n in LABEL_METHODS {
+                println!("{} L", n);
+            }
+        }
+        Some("record") => record(&args[2], args[3].parse().expect("seed"), &args[4]),
+        Some("labels") => labels(&args[2], &args[3]),
+        _ => {
+            eprintln!("usage: va64 methods | record <out> <seed> <quick|thorough|N> | labels <programs> <out>");
+            std::process::exit(2);
+        }
+    }
+}
